@@ -4,7 +4,7 @@ from _common import *
 K = 'acme_common/src/crypto/openssl_keys.rs'
 OSSL = ['openssl model (env/openssl_env): keys are identities; ECDSA r/s, EC x/y, RSA n/e are minimal big-endian vectors of SYMBOLIC length and content (BN_bn2bin contract, first byte non-zero); to_vec_padded follows BN_bn2binpad; signatures are records (signer, digest, input length); SHA-2 is a structural fold, not a model of collision resistance']
 def JWK_UW(n):
-    return {'to_vec_padded': n + 1}
+    return {'to_vec_padded': n + 1, r'serde_json::Map.*insert|map_insert_stub': 6, 'memcmp': 6}
 SPEC = {
     'id': 'C15',
     'outside': 'OpenSSL key generation, PEM/DER round trips and real signature verification (C library); JWK member sets and base64url of coordinates (serde_json Value construction did not converge -- see DESIGN); EdDSA public-key string surgery (str::lines/replace over a symbolic PEM did not converge); r/s shorter than size-1 bytes through sign_ecdsa itself (covered for every length by the padding-macro harness at sizes <= 5)',
@@ -21,8 +21,6 @@ SPEC = {
                 {'name': 'c15_ecdsa_len_p256', 'file': K, 'timeout': 1800, 'bounds': 'r and s of ANY minimal length 1..32 each (symbolic)', 'asserts': 'sign(): R||S has exactly 64 bytes'},
                 {'name': 'c15_ecdsa_len_p384', 'file': K, 'timeout': 1800, 'bounds': 'r and s of ANY minimal length 1..48 each (symbolic)', 'asserts': 'sign(): R||S has exactly 96 bytes'},
                 {'name': 'c15_ecdsa_len_p521', 'file': K, 'timeout': 1800, 'bounds': 'r and s of ANY minimal length 1..66 each (symbolic)', 'asserts': 'sign(): R||S has exactly 132 bytes'},
-                {'name': 'c15_ecdsa_fixed_width_p256_r_any', 'file': K, 'tiers': ['thorough'], 'timeout': 7200, 'mem_gb': 40, 'bounds': 'r any length 1..32, s 32 bytes', 'asserts': 'byte-for-byte alignment at full size'},
-                {'name': 'c15_ecdsa_fixed_width_p256_both_short', 'file': K, 'tiers': ['thorough'], 'timeout': 7200, 'mem_gb': 40, 'bounds': 'r 31 bytes, s 30 bytes', 'asserts': 'byte-for-byte alignment at full size'},
             ],
         },
         {
